@@ -234,6 +234,7 @@ theorem World.bufferFrame_cost (w : World) (f : Frame) :
   · subst hr
     simp only [Res.isWriteBufferFull, if_true]
     rcases checkConnectionReset_cases (w0.setCodec c1 t1) (.err (.writeBufferFull f') : Res Unit)
+        (by intro h; cases h)
       with ⟨he, _⟩ | ⟨_, h, _⟩
     · rw [he]
       have e1 : psi0 (w0.setCodec c1 t1) = tcost t1 + c1.outBuf.length := psi0_eq rfl rfl
@@ -251,6 +252,7 @@ theorem World.bufferFrame_cost (w : World) (f : Frame) :
     simp only [hnw, Bool.false_eq_true, if_false]
     rcases checkConnectionReset_cases
         ({ w0.setCodec c1 t1 with queued := w0.queued ++ [f'] } : World) r
+        (by rcases hk with rfl | ⟨k, rfl⟩ <;> (intro h; cases h))
       with ⟨he, _⟩ | ⟨he, _, _⟩
     · rw [he]
       have e1 : psi0 ({ w0.setCodec c1 t1 with queued := w0.queued ++ [f'] } : World) =
@@ -502,12 +504,14 @@ theorem readRaw_cost (w : World) (hdef : ∀ bs, w.t.rdDef ≠ .data bs) :
   unfold readRaw at S ⊢
   have h := Codec.readFrame_cost w.c.codec w.t w.c.cfg.maxFrame (w.c.role == .server)
     w.c.cfg.acceptUnmasked hdef
+  have hncc := codec_readFrame_ne_cc w.c.codec w.t w.c.cfg.maxFrame (w.c.role == .server)
+    w.c.cfg.acceptUnmasked
   generalize w.c.codec.readFrame w.t w.c.cfg.maxFrame (w.c.role == .server)
     w.c.cfg.acceptUnmasked = q at *
   obtain ⟨c1, t1, r⟩ := q
-  simp only [] at h S ⊢
+  simp only [] at h S hncc ⊢
   have hout := S.same.outBuf
-  rcases checkConnectionReset_cases (w.setCodec c1 t1) r with ⟨he, _⟩ | ⟨he, _, _⟩
+  rcases checkConnectionReset_cases (w.setCodec c1 t1) r hncc with ⟨he, _⟩ | ⟨he, _, _⟩
   · rw [he] at hout ⊢
     have e1 : psi0 (w.setCodec c1 t1) = tcost t1 + c1.outBuf.length := psi0_eq rfl rfl
     have hout' : c1.outBuf = w.c.codec.outBuf := hout
